@@ -597,18 +597,9 @@ void VariableManager::process_variable_declaration(const ASTNode *node) {
                               array_name.c_str());
 
                     // 多次元インデックスを収集
-                    std::vector<int64_t> indices;
-                    const ASTNode *current_node = init_node;
-                    while (current_node && current_node->node_type ==
-                                               ASTNodeType::AST_ARRAY_REF) {
-                        int64_t index =
-                            interpreter_->expression_evaluator_
-                                ->evaluate_expression(
-                                    current_node->array_index.get());
-                        indices.insert(indices.begin(),
-                                       index); // 先頭に挿入（逆順になるため）
-                        current_node = current_node->left.get();
-                    }
+                    // インデックス式はソース上の順（左から右）に評価する
+                    std::vector<int64_t> indices =
+                        extract_array_indices(init_node);
 
                     // インデックス情報をデバッグ出力
                     std::string indices_str;
@@ -1785,18 +1776,9 @@ void VariableManager::process_variable_declaration(const ASTNode *node) {
                               array_name.c_str());
 
                     // 多次元インデックスを収集
-                    std::vector<int64_t> indices;
-                    const ASTNode *current_node = node->init_expr.get();
-                    while (current_node && current_node->node_type ==
-                                               ASTNodeType::AST_ARRAY_REF) {
-                        int64_t index =
-                            interpreter_->expression_evaluator_
-                                ->evaluate_expression(
-                                    current_node->array_index.get());
-                        indices.insert(indices.begin(),
-                                       index); // 先頭に挿入（逆順になるため）
-                        current_node = current_node->left.get();
-                    }
+                    // インデックス式はソース上の順（左から右）に評価する
+                    std::vector<int64_t> indices =
+                        extract_array_indices(node->init_expr.get());
 
                     // インデックス情報をデバッグ出力
                     std::string indices_str;
